@@ -269,8 +269,11 @@ func checkLinkRelDerivation(p *Program, r *Report, rule string) {
 	// an action inside link/rel marks the value as not static
 	ea := p.Func("template", "(*escaper).escapeAction")
 	marked := false
-	if ea != nil {
-		for _, st := range storesToField(ea, pkgTemplate, "attr", "ambiguousValue") {
+	for _, eaf := range actionTailFuncs(p) {
+		if ea == nil {
+			break
+		}
+		for _, st := range storesToField(eaf, pkgTemplate, "attr", "ambiguousValue") {
 			if bv, ok := constBool(st.Val); ok && bv {
 				g1 := allPathsGuard(pv, st.Block(), func(a Atom) bool {
 					k, ok := a.E.Args1Const()
